@@ -1,0 +1,16 @@
+//go:build verif
+
+package server
+
+// VerifSizes returns the sizes of the peer table and of the discovery tables
+// (verification harness only).
+func (s *Server) VerifSizes() map[string]int {
+	s.connsMutex.Lock()
+	n := len(s.conns)
+	s.connsMutex.Unlock()
+	return map[string]int{
+		"peers":              n,
+		"multicast_requests": s.multicastRequests.Length(),
+		"multicast_handlers": s.multicastHandler.Length(),
+	}
+}
